@@ -17,6 +17,14 @@ for pid in sys.argv[2:]:
         subprocess.run(['git', '-C', '/repo', 'worktree', 'add', '--detach', wt, 'HEAD'], check=True, capture_output=True)
     anchors = p['anchors']
     mech = '; '.join(f"{m['name']} ({m['where']})" for m in anchors.get('mechanism', []))
+    extra = ''
+    n_changes, words = 'THREE', 'changes 2 and 3'
+    dirs = '1, 2, 3'
+    if int(rnd) >= 2:
+        n_changes, words, dirs = 'TWO', 'change 2', '1, 2'
+        extra = """
+
+A first round of such changes already exists; it consisted mostly of error wrapping, exactly sized buffers, nil-versus-empty results and private copies. This time go for changes of BEHAVIOUR that the statement leaves open, for example: (i) what happens on failing or out-of-domain paths - a call that fails now fails EARLIER (before any partial work, before a callback fires, before reading further input) or LATER, leaves different partial state behind, or reports a different one of several applicable problems; an out-of-domain argument that used to panic or give garbage is now refused, or the other way round is now handled; (ii) the timing and order of internal events the statement does not fix - when a script is parsed, when a limit or a flag combination is checked, how many intermediate events / reads / writes / locks one operation consists of, as long as the results the statement talks about are the same; (iii) which of several allowed outputs is chosen when the statement gives a bound, a set or an inequality rather than a value (move to another point of the allowed range, deterministically); (iv) additional functionality: a new exported option, field, method or accepted input form next to the existing ones, which changes nothing for existing callers within the quantified domain. Make sure the property REALLY still holds: re-read each clause against your change, and test your change against the unchanged library on many inputs (a throw-away differential test, deleted afterwards) before you deliver it."""
     txt = f"""You are given a Go library (libsv/go-bt: Bitcoin SV transactions and a script interpreter) in your own scratch git worktree at {wt} (a checkout of the library's current HEAD; work ONLY inside that directory; do not read or write anything under /verif or /repo; there is no network: every go command needs `export GOFLAGS=-mod=mod GOPROXY=off GOSUMDB=off GOTOOLCHAIN=local`).
 
 The library is claimed to satisfy this semantic property:
@@ -31,14 +39,14 @@ Code anchors: files {', '.join(anchors['files'])}; mechanisms: {mech}
 
 Somebody has built an automated checker for this property (randomised / generated inputs compared against independent reference implementations, call histories on one object, results kept across calls, invariants on caller-owned data). We want to find out whether that checker raises FALSE ALARMS, i.e. whether it demands more than the property states. You never see the checker.
 
-Your task: produce THREE different, realistic code changes to the library (non-test .go files only) for which the property above STILL HOLDS — for every input in the quantified domain, every clause of the statement remains true on the changed tree — but which change something an over-specified or carelessly written checker might be looking at. Each change must
+Your task: produce {n_changes} different, realistic code changes to the library (non-test .go files only) for which the property above STILL HOLDS — for every input in the quantified domain, every clause of the statement remains true on the changed tree — but which change something an over-specified or carelessly written checker might be looking at. Each change must
   (a) compile (`go build ./...`),
   (b) pass the library's entire existing test suite unchanged (`go test -vet=off -count=1 ./...` in {wt} must print no FAIL),
   (c) really preserve the property: be conservative; if you are not sure a clause still holds for every input of the quantified domain, pick another change. Read the statement literally: what it fixes must stay fixed; what it leaves open may move,
   (d) be observable or structural, not a comment or a rename: something a caller, a debugger, a profiler or a byte-for-byte comparison of some *unspecified* result could notice,
   (e) be the kind of change a maintainer could plausibly commit (a refactoring, an optimisation done correctly, a hardening, a clean-up of an error path).
 
-Good directions (pick the ones that fit this property; the three changes should use different ones and touch different functions):
+Good directions (pick the ones that fit this property; the changes should use different ones and touch different functions):
   - behaviour OUTSIDE the quantified domain or outside the statement: inputs the property explicitly excludes, arguments no constructor of the library can produce, functions near the anchored ones that the statement does not mention;
   - WHICH error is returned when the statement only says "an error" / "rejected": other sentinel, wrapped error, other message, other error code, a different one of two applicable errors because two validity checks swapped order; errors that are now reported earlier or later (before / after partial work) where the statement does not say;
   - a choice among several results the statement allows (when it gives an inequality, a bound or a set rather than one value): move inside the allowed range;
@@ -47,15 +55,17 @@ Good directions (pick the ones that fit this property; the three changes should 
   - internal control flow: fast paths that agree with the general path everywhere, validation done up front instead of lazily where the observable verdict is the same, a different but equivalent order of independent steps, recursion replaced by a loop;
   - stricter or laxer handling of things the statement does not cover (for example: extra, more informative fields in a debugging snapshot; an additional exported helper; a deprecated path redirected to the new one with identical results).
 
+{extra}
+
 Do NOT make changes that merely look benign but break a clause for rare inputs; the point is the opposite. Also do not break OTHER obvious contracts of the library (documented behaviour of exported functions, the Bitcoin wire formats and script rules): the changed library must remain a correct library.
 
-For each change deliver, under {wt}/benign/<n>/ (n = 1, 2, 3):
+For each change deliver, under {wt}/benign/<n>/ (n = {dirs}):
   - patch.diff : `git diff` of the change against HEAD (library source only; the benign/ directory itself must not be in the diff),
   - README.md : what changed and what a caller could observe; then, clause by clause of the statement, the argument why the property still holds for every input of the quantified domain; and what kind of over-specified check you expect might wrongly object.
 
 IMPORTANT: never use `git stash` (the stash is shared with other people's worktrees of the same repository); to get back to a clean tree save your diff to a file and run `git checkout -- .`, and re-apply it with `git apply` when needed.
 
-Procedure: make change 1, verify (a)(b), save the diff, `git checkout -- .` to restore HEAD, and repeat for changes 2 and 3. Leave the worktree clean at the end (only the untracked benign/ directory). In your final message, summarise the three changes (files, one-line description, what is observable, why the property holds) and confirm (a) and (b) with the commands you ran.
+Procedure: make change 1, verify (a)(b), save the diff, `git checkout -- .` to restore HEAD, and repeat for {words}. Leave the worktree clean at the end (only the untracked benign/ directory). In your final message, summarise the changes (files, one-line description, what is observable, why the property holds) and confirm (a) and (b) with the commands you ran.
 """
     open(f'/tmp/benigntask{rnd}-{pid}.txt', 'w').write(txt)
     print(pid, wt)
